@@ -250,12 +250,12 @@ impl<'a> UGen<'a> {
         } else {
             TT::Const(match pi % 4 {
                 0 | 1 => crate::ds::ent(self.r.below(self.n_ent)),
-                2 => format!("{}", self.r.below(self.n_num.max(1))),
+                2 => format!("{}", crate::ds::numv(self.r.below(self.n_num.max(1)))),
                 _ => {
                     if self.r.coin() {
                         crate::ds::word(self.r.below(2))
                     } else {
-                        format!("{}", self.r.below(self.n_num.max(1)))
+                        format!("{}", crate::ds::numv(self.r.below(self.n_num.max(1))))
                     }
                 }
             })
@@ -282,7 +282,7 @@ impl<'a> UGen<'a> {
                 match kind {
                     1 => TT::Const(crate::ds::pred(me.r.below(me.n_pred))),
                     3 => TT::Const(crate::ds::graph(me.r.below(me.n_graph + 1))),
-                    2 if me.r.chance(1, 3) => TT::Const(format!("{}", me.r.below(me.n_num.max(1)))),
+                    2 if me.r.chance(1, 3) => TT::Const(format!("{}", crate::ds::numv(me.r.below(me.n_num.max(1))))),
                     _ => TT::Const(crate::ds::ent(me.r.below(me.n_ent))),
                 }
             };
